@@ -5,7 +5,7 @@ rule sets were re-confirmed on a new reference; never at check time."""
 import ast, json, subprocess, sys, warnings
 from pathlib import Path
 sys.path.insert(0, str(Path(__file__).resolve().parent.parent))
-from snt_static.normalise import inventory_of_tree
+from snt_static.normalise import canonicalise, inventory_of_tree, split_parallel_assignments
 warnings.filterwarnings("ignore", category=SyntaxWarning)
 root = Path(sys.argv[1] if len(sys.argv) > 1 else "/repo")
 inv = {"reference": subprocess.run(["git", "-C", str(root), "rev-parse", "HEAD"], capture_output=True, text=True).stdout.strip(), "files": {}}
@@ -15,6 +15,8 @@ for p in sorted((root / "src/scinumtools").rglob("*.py")):
         tree = ast.parse(p.read_text(encoding="utf-8", errors="replace"))
     except SyntaxError:
         continue
+    canonicalise(tree)
+    split_parallel_assignments(tree)
     inv["files"][rel] = inventory_of_tree(tree)
 out = Path(__file__).resolve().parent.parent / "snt_static" / "inventory.json"
 out.write_text(json.dumps(inv, indent=0, sort_keys=True))
